@@ -20,6 +20,14 @@ IMPORTS = "From SSP Require Import Model.Kroupa."
 def gen(rng):
     n = rng.choice([2, 2, 3, 3, 4, 5, 6])
     a = [rng.choice([rng.uniform(0, 3), rng.uniform(0, 3), 1.0, 2.0, 1.3, 2.35, 0.0, 0.3]) for _ in range(n)]
+    if rng.random() < 0.25:
+        # exponents (and sometimes limits) written as plain integers, the natural spelling of the special values
+        a = [rng.choice([0, 1, 2, 3, 1, 2]) for _ in range(n)]
+        if rng.random() < 0.4:
+            mlim = [1]
+            for _ in range(n):
+                mlim.append(mlim[-1] * rng.choice([2, 3, 10]))
+            return dict(a=a, mlim=mlim)
     m = 10 ** rng.uniform(-2, -0.5)
     mlim = [m]
     for _ in range(n):
@@ -43,7 +51,8 @@ def run(chk):
     n = 150 if chk.tier == "quick" else 1500
     specs = [dict(a=[1.3, 2.35], mlim=[0.08, 0.5, 120.0]), dict(a=[1.0, 2.35], mlim=[0.08, 0.5, 120.0]),
              dict(a=[1.3, 2.0], mlim=[0.08, 0.5, 120.0]), dict(a=[0.3, 1.3, 2.3, 2.7], mlim=[0.01, 0.08, 0.5, 1.0, 120.0]),
-             dict(a=[1.0, 2.0, 1.0, 2.0, 0.0], mlim=[0.1, 0.2, 0.4, 0.8, 1.6, 3.2])]
+             dict(a=[1.0, 2.0, 1.0, 2.0, 0.0], mlim=[0.1, 0.2, 0.4, 0.8, 1.6, 3.2]),
+             dict(a=[1, 2], mlim=[0.08, 0.5, 120.0]), dict(a=[2, 1], mlim=[0.1, 1.5, 100.0]), dict(a=[0, 1, 2, 3], mlim=[1, 2, 4, 8, 16])]
     specs += [gen(rng) for _ in range(n)]
     exprs, meta = [], []
     for sp in specs:
@@ -106,7 +115,7 @@ def run(chk):
         us = [0.0, 1.0, 0.5] + [rng.random() for _ in range(3)]
         gm = []
         for i in range(len(a)):
-            vals = K._getmass(np.array(us), a[i], mlim[i], mlim[i + 1])
+            vals = K._getmass(np.array(us), K._a[i], K._mlim[i], K._mlim[i + 1])      # as sample() calls it
             gm.append([float(x) for x in np.atleast_1d(vals)])
             for x in gm[-1]:
                 if not (mlim[i] * (1 - 1e-12) <= x <= mlim[i + 1] * (1 + 1e-12)):
